@@ -7,6 +7,7 @@
 mod dirs;
 mod model;
 mod props;
+mod purefns;
 mod report;
 mod rng;
 
